@@ -494,33 +494,39 @@ func c16StageAny(env *c16Env, tag string, before UserChannelMembership) (staged,
 	return err == nil, boundary, hide
 }
 
-// Harness_C16_BatchHistory: two arbitrary membership commands staged in one batch and applied in
-// order on one commit state (the second op sees what the first one wrote through the overlay).
-// Unless a step is a boundary, no cursor ends up below where it started.
+// Harness_C16_BatchHistory: two (thorough: three) arbitrary membership commands staged in one
+// batch and applied in order on one commit state (a later op sees what an earlier one wrote
+// through the overlay). Unless a step is a boundary, no cursor ends up below where it started.
 func Harness_C16_BatchHistory() {
 	env := c16NewEnv()
 	start := c16Row("existing")
 	env.seedMembership(start, true)
-	staged1, boundary1, hide1 := c16StageAny(env, "step1", start)
-	if staged1 {
-		zzsym.Assert(len(env.batch.ops) == 1, "C16: first command staged a wrong number of ops")
-		zzsym.Assert(env.batch.ops[0].apply(context.Background(), env.state, engine.ZZC16DetachedBatch()) == nil, "C16: first op failed")
+	steps := 2
+	if zzsym.Thorough() {
+		steps = 3
 	}
-	mid, ok := env.storedMembership()
-	zzsym.Assert(ok, "C16: row disappeared after the first command")
-	staged2, boundary2, hide2 := c16StageAny(env, "step2", mid)
-	if staged2 {
-		last := len(env.batch.ops) - 1
-		zzsym.Assert(env.batch.ops[last].apply(context.Background(), env.state, engine.ZZC16DetachedBatch()) == nil, "C16: second op failed")
+	tags := [3]string{"step1", "step2", "step3"}
+	prev := start
+	anyBoundary := false
+	for i := 0; i < steps; i++ {
+		before := len(env.batch.ops)
+		staged, boundary, hide := c16StageAny(env, tags[i], prev)
+		if staged {
+			zzsym.Assert(len(env.batch.ops) == before+1, "C16: a command staged a wrong number of ops")
+			zzsym.Assert(env.batch.ops[before].apply(context.Background(), env.state, engine.ZZC16DetachedBatch()) == nil, "C16: staged op failed")
+		} else {
+			zzsym.Assert(len(env.batch.ops) == before, "C16: a rejected command staged an op")
+		}
+		cur, ok := env.storedMembership()
+		zzsym.Assert(ok, "C16: row disappeared")
+		anyBoundary = anyBoundary || boundary
+		// per-step statement; the history-level one (end >= start) follows by transitivity
+		zzsym.Assert(anyBoundary || (cur.ReadSeq >= prev.ReadSeq && cur.DeletedToSeq >= prev.DeletedToSeq && cur.UpdatedAt >= prev.UpdatedAt),
+			"C16: ReadSeq/DeletedToSeq/UpdatedAt moved backwards in a boundary-free history")
+		zzsym.Assert(anyBoundary || hide || cur.ActivatedAt >= prev.ActivatedAt, "C16: ActivatedAt moved backwards in a history step that is neither boundary nor Hide")
+		zzsym.Assert(cur.SourceVersion >= prev.SourceVersion, "C16: source version moved backwards")
+		prev = cur
 	}
-	end, ok := env.storedMembership()
-	zzsym.Assert(ok, "C16: row disappeared after the second command")
-	zzsym.Reach("two-steps")
-	anyBoundary := boundary1 || boundary2
-	zzsym.Assert(anyBoundary || (end.ReadSeq >= mid.ReadSeq && mid.ReadSeq >= start.ReadSeq), "C16: ReadSeq moved backwards in a boundary-free history")
-	zzsym.Assert(anyBoundary || (end.DeletedToSeq >= mid.DeletedToSeq && mid.DeletedToSeq >= start.DeletedToSeq), "C16: DeletedToSeq moved backwards in a boundary-free history")
-	zzsym.Assert(anyBoundary || (end.UpdatedAt >= mid.UpdatedAt && mid.UpdatedAt >= start.UpdatedAt), "C16: UpdatedAt moved backwards in a boundary-free history")
-	zzsym.Assert(anyBoundary || hide1 || hide2 || end.ActivatedAt >= start.ActivatedAt, "C16: ActivatedAt moved backwards in a history without boundary or Hide")
-	zzsym.Assert(end.SourceVersion >= mid.SourceVersion && mid.SourceVersion >= start.SourceVersion, "C16: source version moved backwards")
-	c16ObserveRow("c16.history", end)
+	zzsym.Reach("history")
+	c16ObserveRow("c16.history", prev)
 }
